@@ -13,7 +13,7 @@ import leafgen as lg
 import treegen as tg
 
 ID = 'C13'
-GEN = ['kernels']
+GEN = ['kernels', 'basedevice']
 PROPS = 'Props/C13.v'
 MODEL_VO = ['Model/Tree.v']
 SHARD = 40
